@@ -116,6 +116,9 @@ def make_identifier_from_name(name, default_identifier="dagrt_var"):
     result = result.lstrip("_")
     if not result:
         result = default_identifier
+    elif result[0] in digits:
+        # An identifier may not start with a digit.
+        result = default_identifier + "_" + result
     return result
 
 
